@@ -188,6 +188,22 @@ def classify(rec):
                     if len(wm) == 1 and _ms(others + [[me[0], me[1], me[2], wm[0][3]]]) == _ms(wl):
                         return "unusable-hostname-leaves-lease-nameless"
 
+    if act == "RemoveStatic" and why == "state" and reply == "ok" and not newprob:
+        # the call that removes reservations deletes a dynamic lease its client still holds
+        gone = _minus(src, ls)
+        if len(gone) == 1 and not _minus(ls, src) and gone[0][0] == a["m"] and gone[0][1] == a["a"] and gone[0][2] > 0:
+            return "removestatic-removes-held-dynamic-lease"
+
+    if act in ("Discover", "Decline") and why == "state" and not newprob:
+        # an expired entry is reused for a client whose hardware address has another length:
+        # copy() keeps the old length, the entry then belongs to nobody (or to somebody else)
+        odd = [l for l in ls if l[0].startswith("?")]
+        if len(odd) == 1 and not any(l[0] == a["m"] for l in ls):
+            fixed = [[a["m"] if l is odd[0] else l[0], l[1], l[2], l[3]] for l in ls]
+            for w in want:
+                if not w["Same"] and w["Dst"] == lkey(fixed):
+                    return "reused-lease-keeps-old-hwaddr-length"
+
     static_out = any(l[2] == -1 and l[1] in outs for l in ls) and not any(l[1] == pool0 for l in ls)
     if act == "Restart" and why == "state" and not (newprob - {"disk:differs"} - ({"bitset:+0"} if static_out else set())):
         # dynamic leases without a host name come back with a generated one
@@ -196,8 +212,13 @@ def classify(rec):
         same_leases = _ms([l[:3] for l in disk]) == _ms([l[:3] for l in ls])
         renamed = [l for l in disk if by_addr.get((l[0], l[1], l[2])) != l[3]]
         if same_leases and renamed and all(
-                l[2] >= 0 and l[3] == "" and by_addr[(l[0], l[1], l[2])] == "g%d" % l[1] for l in renamed):
-            return "restart-names-unacked-lease"
+                l[2] >= 0 and l[3] == "" and by_addr[(l[0], l[1], l[2])] in ("g%d" % l[1], "u%d" % l[1])
+                for l in renamed):
+            # offered, never acknowledged entries (nobody holds them) get a name and DNS records
+            if any(l[2] == 0 for l in renamed):
+                return "restart-names-unacked-lease"
+            # a running lease that had lost its name to a reservation gets its new name only now
+            return "displaced-lease-nameless-until-restart"
         # a lease of the database is not restored because the name it has there is, after loading,
         # the name of another lease (ResetLeases drops it with ErrDupHostname)
         lost = [d for d in disk if (d[0], d[1], d[2]) not in by_addr]
@@ -268,6 +289,14 @@ def register(ctx, rows, counts):
 
 
 # ------------------------------------------------------------- direction B
+def shape(frm, to):
+    """Kinds of the leases that disappeared / appeared (as zzC10Shape in the harness)."""
+    def cls(l):
+        c = "s" if l[2] < 0 else ("r" if l[2] > 0 else "o")
+        return c + ("?" if l[0].startswith("?") else "") + ("_" if l[3] == "" else "")
+    return "-" + ",".join(sorted(cls(l) for l in _minus(frm, to))) + "+" + ",".join(sorted(cls(l) for l in _minus(to, frm)))
+
+
 def lkey(ls):
     return ",".join(sorted("%s/%d/%d/%s" % tuple(l) for l in ls))
 
@@ -313,7 +342,8 @@ def trace(ctx, opts, counts):
                      "want": want, "why": b["why"], "reply": t["out"],
                      "post": {"ls": t["dst"], "disk": t["disk"], "prob": t["prob"]},
                      "history": [x["act"] for x in rows[j:i + 1]], "univ": TRACE_UNIV, "seed": ctx.seed,
-                     "trace_line": b["l"], "sig": "trace|%s|%s|%s" % (t["act"]["act"], b["why"], ";".join(t["prob"]))})
+                     "trace_line": b["l"], "sig": "trace|%s|%s|%s|%s" % (t["act"]["act"], b["why"], ";".join(t["prob"]),
+                                                 shape(t["srcdisk"] if t["act"]["act"] == "Restart" else t["src"], t["dst"]))})
     per_sig = {}
     todo = []
     for rec in recs:
